@@ -60,7 +60,7 @@ func VerifC14Set(m, n, keyMode, tstMode, fn int) {
 		}
 	}
 	name := [...]string{"union", "intersection", "set-difference", "subsetp"}[fn]
-	vrt.Carve("C14-nil-designator-rejected", fn == 3 && (m == 0 || n == 0))
+	vrt.Carve("C14-valid-args-rejected", fn == 3 && (m == 0 || n == 0))
 	form := slip.List{slip.Symbol(name), zzC14Quote(zzC14Seq(zzC14List, a)), zzC14Quote(zzC14Seq(zzC14List, b))}
 	form = append(form, zzC14KeyTestArgs(keyMode, tstMode)...)
 	out := zzC14Eval(slip.NewScope(), form)
@@ -157,7 +157,7 @@ func VerifC14Every(kind, m, n, two, fn int) {
 	c := zzC14NewTwo(kind, m, n, 0, 0, false)
 	vrt.Assume(!c.hasS1 && c.e1Mode == 0 && !c.hasS2 && c.e2Mode == 0)
 	name := [...]string{"every", "some", "notany", "notevery"}[fn]
-	vrt.Carve("C14-nil-designator-rejected", kind == zzC14List && (m == 0 || (two != 0 && n == 0)))
+	vrt.Carve("C14-valid-args-rejected", kind == zzC14List && (m == 0 || (two != 0 && n == 0)))
 	form := slip.List{slip.Symbol(name)}
 	if two != 0 {
 		form = append(form, zzC14Quote(zzC14NewFn(3)), zzC14Quote(zzC14Seq(kind, c.a)), zzC14Quote(zzC14Seq(kind, c.b)))
@@ -228,10 +228,10 @@ func VerifC14Reduce(kind, n, keyMode int) {
 	}
 	empty := cls == zzC14BValid && s == e
 	// known findings
-	vrt.Carve("C14-nil-designator-rejected", kind == zzC14List && n == 0)
-	vrt.Carve("C14-bound-at-length-rejected", c.hasS && empty)
-	vrt.Carve("C14-reduce-empty-no-call", empty && !hasInit)
-	vrt.Carve("C14-reduce-key-destructive", cls == zzC14BValid && keyMode != 0 && kind != zzC14String && s < e)
+	vrt.Carve("C14-valid-args-rejected", kind == zzC14List && n == 0)
+	vrt.Carve("C14-valid-args-rejected", c.hasS && empty)
+	vrt.Carve("C14-reduce-empty-and-key", empty && !hasInit)
+	vrt.Carve("C14-reduce-empty-and-key", cls == zzC14BValid && keyMode != 0 && kind != zzC14String && s < e)
 	orig := zzC14Seq(kind, c.vals)
 	form := slip.List{slip.Symbol("reduce"), zzC14Quote(zzC14NewSub()), zzC14Quote(orig)}
 	form = append(form, c.keywords()...)
@@ -294,7 +294,7 @@ func VerifC14Map(kind, m, n, two, fn int) {
 		name = "mapcar"
 		form = slip.List{slip.Symbol("mapcar")}
 	}
-	vrt.Carve("C14-nil-designator-rejected", kind == zzC14List && (m == 0 || (two != 0 && n == 0)))
+	vrt.Carve("C14-valid-args-rejected", kind == zzC14List && (m == 0 || (two != 0 && n == 0)))
 	if two != 0 {
 		form = append(form, zzC14Quote(zzC14NewSub()), zzC14Quote(zzC14Seq(kind, c.a)), zzC14Quote(zzC14Seq(kind, c.b)))
 	} else {
